@@ -54,5 +54,5 @@ def run(ctx):
         "first bytes where a branch tests the tag) in the dev and release MIR: acceptance sets, reachability of every panic of the conversion layer (assertions, slice "
         "primitives, unwrap/expect; literal-bound loops run out), and — read off the value term and path condition of every successful path — strict parsing of each "
         "coordinate, funnel through the validated constructor and the parity selection.",
-        shared.ASSUMPTIONS + ["contract of ark_ff BigInt::to_bytes_be (8·N bytes)", "field arithmetic reached after parsing (sqrt, curve test, scalar multiplication) is panic-free: audited by C18's profile-dependent-site rule, not here"],
+        shared.ASSUMPTIONS + ["contract of ark_ff BigInt::to_bytes_be (8·N bytes)", "panic-freedom of the arithmetic reached after parsing is decided on the release MIR only (R-NOPANIC-CORE); overflow-check panics of a debug profile are C18's subject"],
         ["correctness of sqrt and of the curve / subgroup arithmetic used inside the decoders (C09 decides the structure of the validated constructor)"])
